@@ -31,6 +31,10 @@ PLAN = {
     "C08-C": ["C08"], "C08-D": ["C08"], "C12-C": ["C12", "C02"], "C12-D": ["C12"], "C19-C": ["C19"], "C19-D": ["C19"],
     "C05-E": ["C05", "C06"], "C05-F": ["C05", "C06"], "C06-E": ["C06", "C05"], "C06-F": ["C06"], "C07-E": ["C07"],
     "C07-F": ["C07", "C15"], "C15-E": ["C15"], "C15-F": ["C15"], "C02-E": ["C02", "C04"], "C02-F": ["C02", "C04"],
+    # fifth batch
+    "C04-E": ["C04", "C06"], "C04-F": ["C04", "C02"], "C09-E": ["C09"], "C09-F": ["C09"], "C13-E": ["C13"], "C13-F": ["C13", "C10"],
+    "C16-E": ["C16"], "C16-F": ["C16", "C04"], "C11-E": ["C11"], "C11-F": ["C11"], "C18-E": ["C18"], "C18-F": ["C18", "C16"],
+    "C17-E": ["C17"], "C17-F": ["C17"], "C10-E": ["C10"], "C10-F": ["C10", "C14"],
 }
 
 
